@@ -175,6 +175,16 @@ def args_binding(repo, run, fn):
             if src(a1) == "args" and isinstance(a0, ast.Subscript) and isinstance(a0.slice, ast.Slice) and a0.slice.lower is not None and src(a0.slice.lower) == "2" \
                     and a0.slice.upper is None and a0.slice.step is None and _is_argnames(fn, a0.value):
                 ok = True
+    # ... of the args the caller passed: a rebinding of `args` before the zip may convert the sequence (tuple / list) but not wrap or re-group it -
+    # `args = (args,)` for non-tuples binds a whole numpy array (which scipy unpacks) to the first parameter
+    for st in walk_no_nested(fn):
+        if isinstance(st, (ast.Assign, ast.AugAssign)) and any(isinstance(t, ast.Name) and t.id == "args" for t in (st.targets if isinstance(st, ast.Assign) else [st.target])):
+            conv = isinstance(st, ast.Assign) and src(st.value) in ("tuple(args)", "list(args)", "args")
+            run.judged(rid, "rebinding of args: `%s`" % src(st)[:60], ok=conv)
+            if not conv:
+                run.report("C18.2", DS, st, "`args` is re-grouped before it is bound to the parameter names (`%s`): an iterable that is not caught by the accompanying test (a numpy array, "
+                                            "a generator) is bound as ONE parameter instead of element by element, the remaining parameters silently keep their defaults" % src(st)[:60],
+                           text="args re-grouped before binding")
     run.judged(rid, "constants = {name: value for name, value in zip(argspec[0][2:], args)}", ok=ok)
     if not ok:
         run.report("C18.2", DS, node, "args are not bound to the right-hand side's parameters starting at the third (after t and y), in order")
